@@ -151,7 +151,7 @@ Proof. destruct sp; intros [s E]; [right; left | right; right]; exists s; exact 
 
 Definition hs_keep (u u' : url) : Prop :=
   host_str u' = host_str u \/ host_str u' = Some None
-  \/ exists h, host_str u' = Some (Some (hd h)) /\ (ip_arg h \/ origin_st (spb u) h).
+  \/ exists h, host_str u' = Some (Some (hd h)) /\ h <> HDomain [] /\ (ip_arg h \/ origin_st (spb u) h).
 
 (* what a step does to the scheme class and to the host text *)
 Definition FR (u u' : url) : Prop := (spb u' = true -> spb u = true) /\ hs_keep u u'.
@@ -175,7 +175,8 @@ Lemma fr_new_host u u' h : wf_b u = true -> wf_b u' = true -> scheme u' = scheme
 Proof.
   intros W W' E1 E2 Ho. split; [rewrite (spb_same u u' W W' E1); tauto|].
   destruct (hi_some (hi_of_host h)) eqn:Eh; [|right; left; exact E2].
-  right. right. exists h. split; [exact E2|]. destruct Ho as [->|Ho]; [discriminate Eh | exact Ho].
+  right. right. exists h. split; [exact E2|].
+  split; [intros ->; discriminate Eh|]. destruct Ho as [->|Ho]; [discriminate Eh | exact Ho].
 Qed.
 
 (* ---------- fragment / query ---------- *)
